@@ -99,6 +99,14 @@ def verdictPoolFrom (v : Variant) (cfg : Cfg) (ord ord' : List Path) (s1 s2 s1' 
   else if sameFinals cfg r.fs (runPool v cfg ord false s1 s2 fs0).fs then .equal
   else .diff
 
+/-- the same with the resumed run under the options of its own command line (`resumeCfg`, Model/Resume.lean) -/
+def verdictPoolFromOpts (v : Variant) (cfg : Cfg) (ord ord' : List Path) (hm kt : Bool) (s1 s2 s1' s2' : List Chr) (fs0 : FS)
+    (k : Nat) : Verdict :=
+  let r := runPool v (resumeCfg cfg hm kt) ord' true s1' s2' (crashFSPool v cfg ord s1 s2 fs0 k)
+  if !r.ok then .fail
+  else if sameFinals cfg r.fs (runPool v cfg ord false s1 s2 fs0).fs then .equal
+  else .diff
+
 def verdictPool (v : Variant) (cfg : Cfg) (ord ord' : List Path) (s1 s2 s1' s2' : List Chr) (k : Nat) : Verdict :=
   verdictPoolFrom v cfg ord ord' s1 s2 s1' s2' FS.empty k
 
